@@ -1,13 +1,16 @@
 package c16
 
 import (
+	"bytes"
 	"crypto"
 	"crypto/ecdsa"
 	"crypto/elliptic"
 	crand "crypto/rand"
 	"crypto/rsa"
+	"crypto/sha1"
 	"crypto/x509"
 	"crypto/x509/pkix"
+	"encoding/asn1"
 	"encoding/pem"
 	"fmt"
 	"math/big"
@@ -124,6 +127,7 @@ type ee struct {
 	cert    *smx509.Certificate
 	key     crypto.PrivateKey // what is handed to the library (may be *ecdsa.PrivateKey on the SM2 curve)
 	parents []*smx509.Certificate
+	ski1    bool // the certificate's SubjectKeyIdentifier is the method-1 identifier of its key
 }
 
 func (e *ee) String() string { return fmt.Sprintf("%v@%v", e.kind, e.issuer) }
@@ -240,6 +244,21 @@ type eeOpt struct {
 	sigAlg   x509.SignatureAlgorithm // 0 = default of the issuer key
 	sameAs   *smx509.Certificate     // impostor: copy subject, issuer choice and serial number of this certificate
 	reuseKey crypto.PrivateKey       // use this key instead of a fresh one
+	ski1     bool                    // SubjectKeyIdentifier = SHA-1 of the subjectPublicKey bits (RFC 5280 4.2.1.2 method 1)
+}
+
+// keyIdMethod1 is the key identifier RFC 5280 4.2.1.2 (1) derives from a SubjectPublicKeyInfo: the SHA-1 hash of
+// the value of the BIT STRING subjectPublicKey (without tag, length and unused-bits octet).
+func keyIdMethod1(spki []byte) ([]byte, error) {
+	var v struct {
+		Alg asn1.RawValue
+		Key asn1.BitString
+	}
+	if rest, err := asn1.Unmarshal(spki, &v); err != nil || len(rest) != 0 {
+		return nil, fmt.Errorf("harness: SubjectPublicKeyInfo does not parse: %v", err)
+	}
+	h := sha1.Sum(v.Key.RightAlign())
+	return h[:], nil
 }
 
 // newEE creates an end entity of the given key kind below the given issuer. All
@@ -280,6 +299,16 @@ func (w *world) newEE(r *mon.Rand, kind keyKind, iss issuerKind, o eeOpt) (*ee, 
 	if o.ski {
 		t.SubjectKeyId = r.Bytes(20)
 	}
+	if o.ski1 {
+		spki, err := smx509.MarshalPKIXPublicKey(signer.Public())
+		if err != nil {
+			return nil, fmt.Errorf("MarshalPKIXPublicKey(%v): %v", kind, err)
+		}
+		if t.SubjectKeyId, err = keyIdMethod1(spki); err != nil {
+			return nil, err
+		}
+		e.ski1 = true
+	}
 	if o.sameAs != nil {
 		t.SerialNumber = o.sameAs.SerialNumber
 		t.Subject = o.sameAs.Subject
@@ -306,6 +335,11 @@ func (w *world) newEE(r *mon.Rand, kind keyKind, iss issuerKind, o eeOpt) (*ee, 
 	}
 	if e.cert, err = smx509.ParseCertificate(der); err != nil {
 		return nil, fmt.Errorf("ParseCertificate(%v below %v): %v", kind, iss, err)
+	}
+	if e.ski1 && o.sameAs == nil {
+		if id, err := keyIdMethod1(e.cert.RawSubjectPublicKeyInfo); err != nil || !bytes.Equal(id, e.cert.SubjectKeyId) {
+			return nil, fmt.Errorf("harness: method-1 key identifier of the certificate is %x, the extension carries %x (%v)", id, e.cert.SubjectKeyId, err)
+		}
 	}
 	return e, nil
 }
